@@ -39,6 +39,23 @@ def generate(rng, tier, idx, keep_going=False):
     r = rng.random()
     nm = 0 if r < 0.25 else rng.choice([1, 1, 1, 2, 2, 3, 4])
     muts = GT.gen_mutations(rng, info, nm)
+    if rng.random() < 0.05:
+        # two Unicode spellings of "the same" name: the Manifest lists the file under one normalisation form (with its true
+        # size and digest), the directory holds it under the other - to gemato these are two names: one listed file is
+        # missing and one file is stray
+        import hashlib as _hl
+        import unicodedata as _ud
+        topm_ = [m_ for m_ in g['manifests'] if m_['p'] == top]
+        d_ = rng.choice([''] + [d for d in info['view_dirs'] if d and not any(c.startswith('.') for c in d.split('/'))][:3])
+        base_ = rng.choice(['caf\u00e9.txt', '\u00c5ngstr\u00f6m', 'na\u00efve.dat'])
+        a_, b_ = _ud.normalize('NFC', base_), _ud.normalize('NFD', base_)
+        if rng.random() < 0.5:
+            a_, b_ = b_, a_
+        c_ = 'spelled twice'
+        if topm_ and not any(t_['p'] in ((d_ + '/' if d_ else '') + a_, (d_ + '/' if d_ else '') + b_) for t_ in g['tree']):
+            g['tree'].append({'p': (d_ + '/' if d_ else '') + a_, 'k': 'file', 'c': c_})
+            topm_[0]['entries'].append({'tag': 'DATA', 'path': (d_ + '/' if d_ else '') + b_, 'size': len(c_),
+                                        'sums': {'SHA256': _hl.sha256(c_.encode()).hexdigest()}})
     ops = []
     subs = [''] + [d for d in info['view_dirs'] if d]
     for _ in range(rng.choice([1, 1, 2, 3])):
